@@ -3,6 +3,7 @@ package run
 import (
 	"bytes"
 	"encoding/json"
+	"errors"
 	"fmt"
 	"reflect"
 	"sort"
@@ -76,8 +77,49 @@ var (
 	tINOUT = reflect.StructOf([]reflect.StructField{{Name: "In", Type: inType, Anonymous: true}, {Name: "Out", Type: outType, Anonymous: true}, {Name: "A", Type: univ.Type("T1")}})
 )
 
+// Declared (named) shapes that reflect.StructOf cannot express: parameter / result objects that
+// qualify only through the structs they embed, and an error type that is never nil.
+type (
+	InA struct {
+		dig.In
+		A *univ.T1
+	}
+	InB struct {
+		dig.In
+		B *univ.T0 `optional:"true"`
+	}
+	IN2 struct {
+		InA
+		InB
+	}
+	INE  struct{ InA }
+	OutA struct {
+		dig.Out
+		A *univ.T1
+	}
+	OutB struct {
+		dig.Out
+		B *univ.T0
+	}
+	OUT2 struct {
+		OutA
+		OutB
+	}
+	ErS struct{ Code int }
+)
+
+func (ErS) Error() string { return "ErS" }
+
 func atomType(a string) reflect.Type {
 	switch a {
+	case "IN2":
+		return reflect.TypeOf(IN2{})
+	case "INE":
+		return reflect.TypeOf(INE{})
+	case "OUT2":
+		return reflect.TypeOf(OUT2{})
+	case "erS":
+		return reflect.TypeOf(ErS{})
 	case "sT0":
 		return reflect.SliceOf(univ.Type("T0"))
 	case "ssT0":
@@ -317,6 +359,15 @@ func sigClass(err error) (string, string) {
 	if err == nil {
 		return "ok", ""
 	}
+	var es ErS
+	if errors.As(err, &es) {
+		// the never-nil error type of the grammar: the signature was accepted, the function ran
+		// and "returned an error"; it must be the root cause
+		if _, ok := dig.RootCause(err).(ErS); !ok {
+			return "ok", "sentinel-not-root"
+		}
+		return "ok", ""
+	}
 	e := &Entry{}
 	(&Runner{}).classify(e, err, func() *ExecErr { return nil })
 	v := e.V
@@ -324,6 +375,69 @@ func sigClass(err error) (string, string) {
 		v = "ok" // the signature was accepted; the empty container lacks its dependencies
 	}
 	return v, e.Class
+}
+
+// consumerOf builds a function whose parameter object asks for every flat result in rs.
+func consumerOf(rs []SigR) interface{} {
+	fs := []reflect.StructField{{Name: "In", Type: inType, Anonymous: true}}
+	seen := map[SigR]bool{}
+	for _, r := range rs {
+		if seen[r] {
+			continue
+		}
+		seen[r] = true
+		t := atomType(r.Ty)
+		tag := ""
+		if r.Name != "" {
+			tag = fmt.Sprintf(`name:%q`, r.Name)
+		}
+		if r.Grp != "" {
+			t = reflect.SliceOf(t)
+			tag = fmt.Sprintf(`group:%q`, r.Grp)
+		}
+		fs = append(fs, reflect.StructField{Name: fmt.Sprintf("R%d", len(fs)), Type: t, Tag: reflect.StructTag(tag)})
+	}
+	ft := reflect.FuncOf([]reflect.Type{reflect.StructOf(fs)}, nil, false)
+	return reflect.MakeFunc(ft, func([]reflect.Value) []reflect.Value { return nil }).Interface()
+}
+
+// followUp runs, after the call under test, a fixed continuation of valid operations on the
+// same container: whatever the call under test was given, none of them may panic, the valid
+// registrations must be accepted and resolvable, and an error must classify as dig's or the
+// user's.  consume, if not nil, is invoked first (it asks for what the tested call registered).
+func followUp(c *dig.Container, a api, consume interface{}, add func(k, d string), what string) {
+	step := func(name string, mustOK bool, f func() error) {
+		var err error
+		_, crash := guard(func() { err = f() })
+		switch {
+		case crash != "":
+			add("crash", fmt.Sprintf("%s: %s panicked: %s", what, name, crash))
+		case err != nil && mustOK:
+			add("followup", fmt.Sprintf("%s: %s failed: %v", what, name, err))
+		case err != nil:
+			if _, class := sigClass(err); class != "" && class != "rootdig" {
+				add("class."+class, fmt.Sprintf("%s: %s: misclassified error: %v", what, name, err))
+			}
+		}
+	}
+	if consume != nil {
+		step("Invoke of a consumer of the registered keys", false, func() error { return a.Invoke(consume) })
+		step("second Invoke of the consumer", false, func() error { return a.Invoke(consume) })
+	}
+	step("Provide of a valid constructor", true, func() error { return a.Provide(func() *univ.T4 { return &univ.T4{} }) })
+	step("Invoke of the valid constructor", true, func() error { return a.Invoke(func(*univ.T4) {}) })
+	var later *dig.Scope
+	step("Scope", true, func() error { later = a.Scope("later"); return nil })
+	if later != nil {
+		step("Provide in a scope created afterwards", true, func() error { return later.Provide(func(*univ.T4) *univ.T3 { return &univ.T3{} }) })
+		step("Invoke in a scope created afterwards", true, func() error { return later.Invoke(func(*univ.T3, *univ.T4) {}) })
+		if consume != nil {
+			step("Invoke of the consumer from the later scope", false, func() error { return later.Invoke(consume) })
+		}
+	}
+	if v := vizOK(c); v != "" {
+		add("viz.misbehaved", what+": Visualize/String panicked after the follow-up: "+v)
+	}
 }
 
 // TestSig runs the real Provide / Decorate / Invoke on the value of one enumerated case, in
@@ -387,6 +501,11 @@ func TestSig(l *SigLine) []SigDiv {
 			if v := vizOK(c); v != "" {
 				add("viz.misbehaved", "Visualize/String panicked after Provide: "+v)
 			}
+			var consume interface{}
+			if perr == nil && len(l.Fr) > 0 {
+				consume = consumerOf(l.Fr)
+			}
+			followUp(c, a, consume, add, fmt.Sprintf("after Provide (state %d)", state))
 		}
 		// Decorate
 		{
@@ -422,6 +541,11 @@ func TestSig(l *SigLine) []SigDiv {
 			if v := vizOK(c); v != "" {
 				add("viz.misbehaved", "Visualize/String panicked after Decorate: "+v)
 			}
+			var consume interface{}
+			if derr == nil && len(l.Frd) > 0 {
+				consume = consumerOf(l.Frd)
+			}
+			followUp(c, a, consume, add, fmt.Sprintf("after Decorate (state %d)", state))
 		}
 		// Invoke
 		{
@@ -450,6 +574,7 @@ func TestSig(l *SigLine) []SigDiv {
 			if v := vizOK(c); v != "" {
 				add("viz.misbehaved", "Visualize/String panicked after Invoke: "+v)
 			}
+			followUp(c, a, nil, add, fmt.Sprintf("after Invoke (state %d)", state))
 		}
 	}
 	return ds
